@@ -470,23 +470,38 @@ theorem pendingOf_push (S : Store) (e : Entry) : pendingOf (S.push e) = pendingO
 theorem not_root_of_evOk (k : String) (pending : List Path) (j : Nat) (key : String) (v : Val) :
     ¬ evOk k pending (.write [] j key v) := by simp [evOk, under]
 
+/-- The settle step of the repaired executor, while root field `k` is current: it logs only
+    fulfilments allowed by `evOk` and keeps the store `Good`. -/
+theorem settled_serial {k : String} {pending : List Path} {S S' : Store} (h : Settled S S') (hg : Good k pending S) :
+    (∃ l, S'.log = S.log ++ l ∧ ∀ e ∈ l, evOk k pending e) ∧ Good k pending S' := by
+  obtain ⟨l, hl, hle⟩ := h.log
+  refine ⟨⟨l, hl, fun e he => ?_⟩, fun p hp => hg p (h.out p hp)⟩
+  obtain ⟨p, hp, rfl⟩ := hle e he
+  simp only [evOk]; exact (hg p hp).symm
+
+theorem pendingOf_nil {S : Store} (h : S.outstanding = []) : pendingOf S = [] := by simp [pendingOf, h]
+
 /-- **Main lemma of C11.** Whatever `execSerial` appends to the log splits into one block per root
     field, in document order, each block obeying `evOk` for its key (plus the `Set` of that
-    field's root slot); root slot `j` is only ever set with the key of field `j`. -/
-theorem execSerial_serial (fuel : Nat) : ∀ (fields : List Field) (n i : Nat) (sched : List Nat) (S : Store),
-    ∃ l, (execSerial fuel fields n i sched S).2.2.log = S.log ++ l ∧ SerialLog (rootKeys fields) (pendingOf S) l ∧
-      RootWrites i (rootKeys fields) l := by
+    field's root slot); root slot `j` is only ever set with the key of field `j`. On the repaired
+    executor (`st = true`, `settleSerialPromises` after every `wait`) nothing is outstanding when a
+    block ends, so the split is strict: every event of a block lies under the block's key. -/
+theorem execSerial_serial (st : Bool) (fuel : Nat) : ∀ (fields : List Field) (n i : Nat) (sched : List Nat) (S : Store),
+    ∃ l, (execSerial st fuel fields n i sched S).2.2.log = S.log ++ l ∧ SerialLog (rootKeys fields) (pendingOf S) l ∧
+      RootWrites i (rootKeys fields) l ∧ (st = true → S.outstanding = [] → StrictSerial (rootKeys fields) l) := by
   intro fields
   induction fields with
-  | nil => intro n i sched S; exact ⟨[], by simp [execSerial], SerialLog.stop _ _, by simp [RootWrites]⟩
+  | nil =>
+    intro n i sched S
+    exact ⟨[], by simp [execSerial], SerialLog.stop _ _, by simp [RootWrites], fun _ _ => StrictSerial.stop _⟩
   | cons fld rest ih =>
     intro n i sched S
     cases fld with
     | mk key nn mode rerr c =>
       by_cases hm : mode = .tname
       · subst hm
-        obtain ⟨l', hl', hs', hr'⟩ := ih n (i + 1) sched (S.push (.write [] i key (tnameVal c)))
-        refine ⟨[.write [] i key (tnameVal c)] ++ l', by simp only [execSerial]; rw [hl']; simp [Store.push], ?_, ?_⟩
+        obtain ⟨l', hl', hs', hr', hst'⟩ := ih n (i + 1) sched (S.push (.write [] i key (tnameVal c)))
+        refine ⟨[.write [] i key (tnameVal c)] ++ l', by simp only [execSerial]; rw [hl']; simp [Store.push], ?_, ?_, ?_⟩
         · exact SerialLog.block key (rootKeys rest) (pendingOf S) (pendingOf S) _ _
             (by intro e he; simp at he; subst he; exact Or.inr ⟨i, _, rfl⟩) (fun p hp => Or.inl hp) hs'
         · intro j key' v hmem
@@ -496,6 +511,9 @@ theorem execSerial_serial (fuel : Nat) : ∀ (fields : List Field) (n i : Nat) (
             refine ⟨by omega, ?_⟩
             have : j - i = (j - (i + 1)) + 1 := by omega
             rw [this]; simpa [rootKeys] using h2
+        · intro hst hS
+          exact StrictSerial.block key (rootKeys rest) _ _
+            (by intro e he; simp at he; subst he; exact Or.inr ⟨i, _, rfl⟩) (hst' hst hS)
       · rcases h1 : execField nn mode rerr c [.key key] (complete nn c [.key key]) S with ⟨f0, S1⟩
         rcases h2 : catchIfNullable nn f0 S1 with ⟨f, S2⟩
         have hf := execField_appK key nn mode rerr c [.key key] (complete nn c [.key key]) S (under_root_key key)
@@ -508,11 +526,21 @@ theorem execSerial_serial (fuel : Nat) : ∀ (fields : List Field) (n i : Nat) (
         obtain ⟨l1, hl1, hle1⟩ := happ.log
         have hg0 : Good key (pendingOf S) S := fun p hp => Or.inl (List.mem_map_of_mem hp)
         have hg2 : Good key (pendingOf S) S2 := happ.good hg0
-        obtain ⟨⟨l2, hl2, hle2⟩, hg3⟩ := waitLoop_serial key (pendingOf S) fuel f sched S2 hcu hg2
-        rw [execSerial_cons fuel key nn mode rerr c rest n i sched S S1 S2 f0 f hm h1 h2]
-        rcases hwl : waitLoop fuel f sched S2 with ⟨w, sched', S3⟩
-        rw [hwl] at hl2 hg3
-        simp only at hl2 hg3
+        obtain ⟨⟨l2a, hl2a, hle2a⟩, hg3a⟩ := waitLoop_serial key (pendingOf S) fuel f sched S2 hcu hg2
+        rw [execSerial_cons st fuel key nn mode rerr c rest n i sched S S1 S2 f0 f hm h1 h2]
+        obtain ⟨sched0, S3', hwl, hset, hempty⟩ := waitSettle_settled st fuel f sched S2
+        rcases hws : waitSettle st fuel f sched S2 with ⟨w, sched', S3⟩
+        rw [hws] at hwl hset hempty
+        rw [hwl] at hl2a hg3a
+        simp only at hl2a hg3a hset hempty
+        obtain ⟨⟨l2b, hl2b, hle2b⟩, hg3⟩ := settled_serial hset hg3a
+        have hl2 : S3.log = S2.log ++ (l2a ++ l2b) := by rw [hl2b, hl2a]; simp
+        have hle2 : ∀ e ∈ l2a ++ l2b, evOk key (pendingOf S) e := by
+          intro e he
+          rcases List.mem_append.mp he with h | h
+          · exact hle2a e h
+          · exact hle2b e h
+        generalize l2a ++ l2b = l2 at hl2 hle2
         have hblk : ∀ e ∈ l1 ++ l2, evOk key (pendingOf S) e := by
           intro e he
           rcases List.mem_append.mp he with h | h
@@ -521,19 +549,24 @@ theorem execSerial_serial (fuel : Nat) : ∀ (fields : List Field) (n i : Nat) (
         have hnoroot : ∀ j key' v, Entry.write [] j key' v ∉ l1 ++ l2 :=
           fun j key' v hmem => not_root_of_evOk key (pendingOf S) j key' v (hblk _ hmem)
         have hstop : ∃ l, S3.log = S.log ++ l ∧ SerialLog (key :: rootKeys rest) (pendingOf S) l ∧
-            RootWrites i (key :: rootKeys rest) l := by
-          refine ⟨(l1 ++ l2) ++ [], by rw [hl2, hl1]; simp, ?_, ?_⟩
+            RootWrites i (key :: rootKeys rest) l ∧
+            (st = true → S.outstanding = [] → StrictSerial (key :: rootKeys rest) l) := by
+          refine ⟨(l1 ++ l2) ++ [], by rw [hl2, hl1]; simp, ?_, ?_, ?_⟩
           · exact SerialLog.block key (rootKeys rest) (pendingOf S) [] _ _ (fun e he => Or.inl (hblk e he)) (by simp)
               (SerialLog.stop _ _)
           · intro j key' v hmem; simp only [List.append_nil] at hmem; exact absurd hmem (hnoroot j key' v)
+          · intro _ hS
+            refine StrictSerial.block key (rootKeys rest) _ _ (fun e he => Or.inl ?_) (StrictSerial.stop _)
+            have := hblk e he
+            rwa [pendingOf_nil hS] at this
         cases w with
         | done r =>
           cases r with
           | err e => simpa [serialCont, rootKeys, Field.key] using hstop
           | ok v =>
             simp only [serialCont]
-            obtain ⟨l3, hl3, hs3, hr3⟩ := ih n (i + 1) sched' (S3.push (.write [] i key v))
-            refine ⟨(l1 ++ l2 ++ [.write [] i key v]) ++ l3, by rw [hl3]; simp [Store.push, hl2, hl1], ?_, ?_⟩
+            obtain ⟨l3, hl3, hs3, hr3, hst3⟩ := ih n (i + 1) sched' (S3.push (.write [] i key v))
+            refine ⟨(l1 ++ l2 ++ [.write [] i key v]) ++ l3, by rw [hl3]; simp [Store.push, hl2, hl1], ?_, ?_, ?_⟩
             · refine SerialLog.block key (rootKeys rest) (pendingOf S) (pendingOf S3) _ _ ?_ (good_pending hg3) hs3
               intro e he
               rcases List.mem_append.mp he with h | h
@@ -548,6 +581,14 @@ theorem execSerial_serial (fuel : Nat) : ∀ (fields : List Field) (n i : Nat) (
                 refine ⟨by omega, ?_⟩
                 have : j - i = (j - (i + 1)) + 1 := by omega
                 rw [this]; simpa [rootKeys] using h2'
+            · intro hst hS
+              refine StrictSerial.block key (rootKeys rest) _ _ ?_ (hst3 hst (hempty hst _ rfl).1)
+              intro e he
+              rcases List.mem_append.mp he with h | h
+              · refine Or.inl ?_
+                have := hblk e h
+                rwa [pendingOf_nil hS] at this
+              · simp at h; subst h; exact Or.inr ⟨i, v, rfl⟩
         | stuck => simpa [serialCont, rootKeys, Field.key] using hstop
         | outOfFuel => simpa [serialCont, rootKeys, Field.key] using hstop
 
